@@ -252,7 +252,9 @@ def run(ck):
     if not (seen_q and seen_r):
         raise AnalysisError(f"{gi.where}: query / reference vectorisation not found in getInitialAlignment")
     # both strands, identical arguments
-    pc = p.find_method("_WorkflowCoordinator", "__getPrimaryCorrelations")
+    from ..rules.common import private_anchor
+    pc = private_anchor(ck.ctx, "_WorkflowCoordinator", "__getPrimaryCorrelations", "_WorkflowCoordinator.execute",
+                        calls=("getInitialAlignment",))
     calls = {}
     together = False
     for pa in explore(ck, pc):
@@ -313,7 +315,7 @@ def run(ck):
                      "secondary reference vector is never reversed", found=T.show(rv[0].get("reverseStrand", C(False))))
             break
     # worker -> aligner -> engine / row
-    ar = p.find_method("_WorkflowCoordinator", "__getAlignmentRow")
+    ar = private_anchor(ck.ctx, "_WorkflowCoordinator", "__getAlignmentRow", "_WorkflowCoordinator.execute", calls=("align",))
     for pa in explore(ck, ar):
         if pa.outcome != "return":
             continue
